@@ -148,12 +148,28 @@ pub fn check(c: &History) -> Result<(), String> {
                     ensure!(s.h.count() == s.model.len(), "{}: count() = {} expected {}", what, s.h.count(), s.model.len());
                 }
                 Op::Clone(to) => {
-                    let h = slots[cur].h.clone();
+                    // to = 0..2: `slot = current.clone()`; to = 3..5: `slot.clone_from(&current)` into the existing,
+                    // already used hasher of that slot (Clone::clone_from may reuse the destination's storage)
                     let model = slots[cur].model.clone();
+                    let in_place = (*to as usize) % 6 >= 3;
                     let to = (*to as usize) % 3;
                     if to < slots.len() {
-                        slots[to] = Slot { h, model };
+                        if in_place && to != cur {
+                            let (a, b) = if to < cur {
+                                let (x, y) = slots.split_at_mut(cur);
+                                (&mut x[to], &y[0])
+                            } else {
+                                let (x, y) = slots.split_at_mut(to);
+                                (&mut y[0], &x[cur])
+                            };
+                            a.h.clone_from(&b.h);
+                            a.model = model;
+                        } else {
+                            let h = slots[cur].h.clone();
+                            slots[to] = Slot { h, model };
+                        }
                     } else {
+                        let h = slots[cur].h.clone();
                         slots.push(Slot { h, model });
                     }
                 }
@@ -265,7 +281,7 @@ pub fn op_strategy(max_abs: u32, with_io: bool) -> BoxedStrategy<Op> {
             3 => Just(Op::Finalize),
             2 => (0u16..=300).prop_map(Op::FinalizeXof),
             1 => Just(Op::Count),
-            2 => (0u8..3).prop_map(Op::Clone),
+            3 => (0u8..6).prop_map(Op::Clone),
             2 => (0u8..3).prop_map(Op::Select),
         ]
         .boxed()
@@ -275,7 +291,7 @@ pub fn op_strategy(max_abs: u32, with_io: bool) -> BoxedStrategy<Op> {
             3 => Just(Op::Finalize),
             2 => (0u16..=300).prop_map(Op::FinalizeXof),
             1 => Just(Op::Count),
-            2 => (0u8..3).prop_map(Op::Clone),
+            3 => (0u8..6).prop_map(Op::Clone),
             2 => (0u8..3).prop_map(Op::Select),
         ]
         .boxed()
@@ -398,7 +414,7 @@ fn huge_items(tier: Tier) -> Box<dyn Iterator<Item = HugeCase>> {
 pub fn subs() -> Vec<Box<dyn DynSub>> {
     vec![Box::new(PropSub::<History> {
         name: "histories",
-        rule: "proptest: histories of update/Write/io::copy/update_reader/update_rayon/update_mmap*/finalize/finalize_xof/count/clone/select over <=3 hashers of one mode (0-40 ops, <=256 KiB quick; 0-200 ops, <=8 MiB thorough), sizes resolved against the running total (block/chunk/power-of-two/SIMD-degree boundaries +-delta); model = independent spec over the bytes absorbed by each instance, compared after every op; non-trivial = >=2 absorbing ops, >1 chunk total, some op boundary off a chunk boundary",
+        rule: "proptest: histories of update/Write/io::copy/update_reader/update_rayon/update_mmap*/finalize/finalize_xof/count/clone/clone_from/select over <=3 hashers of one mode (0-40 ops, <=256 KiB quick; 0-200 ops, <=8 MiB thorough), sizes resolved against the running total (block/chunk/power-of-two/SIMD-degree boundaries +-delta); model = independent spec over the bytes absorbed by each instance, compared after every op; non-trivial = >=2 absorbing ops, >1 chunk total, some op boundary off a chunk boundary",
         cases: (48_000, 400_000),
         strategy,
         classify,
